@@ -130,7 +130,7 @@ def run(ctx):
             if pos == p["input"]["len"] and pos > 0:
                 continue
             cases.append({"id": len(cases) + 1, "input": p["input"], "opts": p["opts"], "reads": rnd.choice([[40], [4096], [1 << 20], [7, 300]]),
-                          "failPos": pos, "probe": p["id"], "failBlocks": (0 if pos < 0 else pos // B)})
+                          "failPos": pos, "failKind": (k + len(cases)) % 3, "probe": p["id"], "failBlocks": (0 if pos < 0 else pos // B)})
         cases.append({"id": len(cases) + 1, "input": p["input"], "opts": p["opts"], "reads": [4096], "probe": p["id"], "reapply": True})
         # reuse of the encoder instance: an earlier stream with another block size, then Reset + Apply
         cases.append({"id": len(cases) + 1, "input": p["input"], "opts": p["opts"], "reads": rnd.choice([[4096], [1 << 20], [7, 300]]), "probe": p["id"],
